@@ -48,6 +48,7 @@ pub fn run(rng: &mut Rng, n: usize, rep: &mut Report) {
     // the permissionless migrate_curve on frozen banks (shared with the C18 monitor; here only the freeze clause is judged)
     crate::mon_c18::migrate_block(rng, (n / 40).max(6), rep, true);
     metadata_block(rng, (n / 60).max(3), rep);
+    foreign_group_block(rng, (n / 60).max(3), rep);
     run_with(rng, n, rep, &mut None)
 }
 
@@ -435,6 +436,64 @@ fn metadata_block(rng: &mut Rng, n: usize, rep: &mut Report) {
                         rep.fail(format!("{} ACCEPTED although a string exceeds the field", desc));
                     }
                 }
+            }
+        }
+    }
+}
+
+
+/// every role is a role OF A GROUP: somebody who administers a group of his own (anyone can create one) passes that group
+/// — with himself in every admin seat — to the per-bank administrative instructions, aimed at a bank of ANOTHER group:
+/// all of them must be refused and leave the victim bank byte-identical. For the e-mode clone he also owns a source bank
+/// with aggressive entries (validated against HIS group's caps).
+fn foreign_group_block(rng: &mut Rng, n: usize, rep: &mut Report) {
+    use anchor_lang::{InstructionData, ToAccountMetas};
+    use marginfi_type_crate::types::{BankConfigOpt, InterestRateConfigOpt};
+    for _ in 0..n {
+        let mut s = Scen::build(rng);
+        let outsider = s.w.add_wallet(10_000_000_000);
+        let own_group = s.w.add_group(outsider);
+        // his own bank (same mint as the victim's, any valid configuration) with e-mode entries
+        let victim = s.banks[rng.below(s.banks.len() as u64) as usize];
+        let own = s.w.add_bank(own_group, victim.mint, crate::world::fixtures::bank_config_fixed(I80F48::from_num(1)));
+        {
+            let mut b = s.w.bank(&own.bank);
+            b.emode.emode_tag = 7;
+            b.emode.emode_config.entries[0] = marginfi_type_crate::types::EmodeEntry {
+                collateral_bank_emode_tag: 3, flags: 0, pad0: [0; 5],
+                asset_weight_init: I80F48::from_num(0.9).into(), asset_weight_maint: I80F48::from_num(0.95).into(),
+            };
+            b.emode.flags |= marginfi_type_crate::types::EMODE_ON;
+            s.w.set_bank(&own.bank, &b);
+        }
+        let foreign = crate::world::fixtures::BankHandle { group: own_group, ..victim };
+        let probes: Vec<(&str, solana_program::instruction::Instruction)> = vec![
+            ("lending_pool_configure_bank", ix::configure_bank(&foreign, outsider, BankConfigOpt { deposit_limit: Some(1), ..Default::default() })),
+            ("lending_pool_configure_bank_interest_only", ix::configure_bank_interest_only(&foreign, outsider, InterestRateConfigOpt { insurance_fee_fixed_apr: Some(I80F48::from_num(0.01).into()), ..Default::default() })),
+            ("lending_pool_configure_bank_limits_only", ix::configure_bank_limits_only(&foreign, outsider, Some(1), Some(1), None)),
+            ("lending_pool_configure_bank_emode", solana_program::instruction::Instruction {
+                program_id: marginfi::ID,
+                accounts: marginfi::accounts::LendingPoolConfigureBankEmode { group: own_group, emode_admin: outsider, bank: victim.bank }.to_account_metas(None),
+                data: marginfi::instruction::LendingPoolConfigureBankEmode { emode_tag: 9, entries: s.w.bank(&own.bank).emode.emode_config.entries }.data(),
+            }),
+            ("lending_pool_clone_emode", solana_program::instruction::Instruction {
+                program_id: marginfi::ID,
+                accounts: marginfi::accounts::LendingPoolCloneEmode { group: own_group, signer: outsider, copy_from_bank: own.bank, copy_to_bank: victim.bank }.to_account_metas(None),
+                data: marginfi::instruction::LendingPoolCloneEmode {}.data(),
+            }),
+        ];
+        for (name, ixn) in probes {
+            rep.bump("cases");
+            let before = s.w.accounts.clone();
+            let r = s.w.exec(&ixn);
+            rep.bump(if r.is_ok() { "foreign_group_accepted" } else { "foreign_group_refused" });
+            if r.is_ok() {
+                let changed = before.get(&victim.bank) != s.w.accounts.get(&victim.bank);
+                rep.fail(format!("foreign-group-admin: {} signed by the admin of ANOTHER group (passed as `group`) was ACCEPTED on this group's bank{}", name, if changed { " and changed it" } else { "" }));
+                rep.fail(format!("C08 {} accepted a group that the bank does not belong to", name));
+                s.w.accounts = before;
+            } else if s.w.accounts != before {
+                rep.fail(format!("C08 a refused {} changed the account store", name));
             }
         }
     }
